@@ -26,6 +26,14 @@ CLAIMS = {
          "Decides that no panic construct in workspace code is reachable from any network-facing decoder unless mechanically discharged or triaged with a reason, and that Proof/Transaction values are only built behind their validations. Re-encode equivalence is not decided.", "4/C17"),
  "C18": ("symbolic truth-table evaluation of zone predicates by CFG path enumeration; operand provenance; atomic-region effect-order analysis",
          "Decides checked escrow arithmetic, exact agreement of the three source-zone predicates (finite boolean domain, exhaustive), matching channel/asset/amount operands on the matching branches, and failure atomicity of the swallowed receive region. The accounting identity over histories is not decided.", "4/C18"),
+ "C05": ("must-dominate state-reset rule with correlated-flag handling; phase-order agreement from write key-set intersection (call graph); hash-iteration/clock inventory",
+         "Decides that every executing ABCI path resets to the committed snapshot before any state-writing phase, that phases with intersecting write key-sets have one relative order on cached and finalize-only paths (one open finding: oracle prices vs transactions), that hash-order iteration and clocks on the consensus path are triaged (sort-before-hash checked), exhaustive ExecutionState matches, cached results only read on the matched path. Equality of app hashes as values is not decided.", "4/C05"),
+ "C06": ("sibling-agreement + must-dominate rules on proposal handlers; counter-update pairing",
+         "Decides one shared per-transaction check routine, acceptance only behind both commitment equalities and decode/signature/execution/upgrade-hash success, executed list grows only behind all admission checks, failed checks of the Process variant always reject, byte counters updated after every inclusion and only assigned behind <= max. Liveness over all mempool contents is not decided.", "4/C06"),
+ "C07": ("constructor discipline (who-may-construct) + accept-only-after-validators + sibling agreement + operand provenance of the Celestia split",
+         "Decides that checked block types are only built in listed constructors, validating constructors return Ok only behind their Merkle-proof/root checks against the header data hash, unchecked constructors are confined to the sequencer storage read path, rollup maps are sorted before hashing, the two filter routines agree field by field, the Celestia split copies each rollup's own id/data/proof. Value equality of served data is not decided.", "4/C07"),
+ "C10": ("who-may-call RPC sinks + must-dominate height-equality guards + operand provenance of Update variants + monotone-field rule",
+         "Decides that ExecuteBlock is only reachable via execute_soft/firm behind height == next expected with the matching parent hash, contract check before every commitment update, Update variants pair with the path and the rollup number mapped from this height, block-cache next height only moves forward, CommitmentState only built with firm <= soft. Interleavings are not enumerated.", "4/C10"),
 }
 NA = {}
 checks = []
